@@ -30,6 +30,7 @@ type simcfg struct {
 	badgerCache int
 	ff          bool
 	live        int
+	relag       bool
 	witness     bool
 	thorough    bool
 	split       bool // directed adversarial schedules (split.go)
@@ -45,6 +46,7 @@ type hist struct {
 	nodes []*hx.Node
 	rng   *rand.Rand
 	cfg   simcfg
+	relagVictim *hx.Node // C06 -relag: the validator that lags from the start
 	// statistics
 	laggingDecisions int
 	framesChecked    int             // C04 frameOracle: frames examined
@@ -437,6 +439,13 @@ func runHistory(out *bufio.Writer, seed int64, hid int, cfg simcfg) (stats map[s
 	submitRate := []float64{0.1, 0.25, 0.5}[rng.Intn(3)]
 	silentAt := -1
 	maxSilent := (cfg.n - 1) / 3
+	if cfg.relag && cfg.n >= 4 {
+		// C06: one validator lags from the start (it is the silent minority of this history); before the fair
+		// suffix it wakes up, receives a truncated sync and fast-forwards (liveness.go: relagWake)
+		h.relagVictim = h.nodes[1+rng.Intn(cfg.n-1)]
+		h.relagVictim.Silent = true
+		maxSilent = 0
+	}
 	if maxSilent > 0 && rng.Intn(2) == 0 {
 		silentAt = rng.Intn(cfg.steps)
 	}
@@ -532,6 +541,9 @@ func runHistory(out *bufio.Writer, seed int64, hid int, cfg simcfg) (stats map[s
 		}
 	}
 	if cfg.live > 0 {
+		if h.relagVictim != nil {
+			h.relagWake()
+		}
 		h.liveness(cfg.live)
 	}
 	h.finalOracles()
@@ -584,6 +596,7 @@ func main() {
 	thorough := flag.Bool("thorough", false, "more variants")
 	badgerCache := flag.Int("badgercache", 0, "node 0 uses a BadgerStore with this (small) cache size and is not compared with the model")
 	ff := flag.Bool("ff", false, "C13: half of the joiners start by fast-forwarding from a peer's anchor instead of replaying history")
+	relag := flag.Bool("relag", false, "C06 (with -live): one validator lags from the start, then wakes up, syncs a few events and fast-forwards before the fair suffix")
 	live := flag.Int("live", 0, "C06: after the adversarial prefix run fair all-pairs cycles until quiescence, at most this many")
 	witness := flag.Bool("c03witness", false, "search a minimal batching witness")
 	split := flag.Bool("split", false, "directed adversarial schedules: split votes up to the coin round, late witnesses, monologues, delayed delivery, refused forks")
@@ -605,7 +618,7 @@ func main() {
 		if *minn > 0 && n < *minn {
 			n = *minn + master.Intn(*maxn-*minn+1)
 		}
-		cfg := simcfg{appFaults: *appFaults, inmem0: *inmem0, longSil: *longSil, split: *split, stall: *stall, latesigs: *latesigs, n: n, steps: *steps/2 + master.Intn(*steps), dyn: *dyn, fairTail: *tail, cache: *cache, faults: *faults, passFaults: *passFaults, advsigs: *advsigs, dagrun: *dagrun, thorough: *thorough, badgerCache: *badgerCache, ff: *ff, live: *live, witness: *witness}
+		cfg := simcfg{appFaults: *appFaults, inmem0: *inmem0, longSil: *longSil, split: *split, stall: *stall, latesigs: *latesigs, n: n, steps: *steps/2 + master.Intn(*steps), dyn: *dyn, fairTail: *tail, cache: *cache, faults: *faults, passFaults: *passFaults, advsigs: *advsigs, dagrun: *dagrun, thorough: *thorough, badgerCache: *badgerCache, ff: *ff, live: *live, relag: *relag, witness: *witness}
 		runHistory(out, master.Int63(), i, cfg)
 	}
 }
